@@ -333,6 +333,231 @@ pub fn read_assertion_diag(rendered: &str, r: &Rendered, entry: usize, comms: &[
     })
 }
 
+// ---------- every book-keeping error (C01, C03): which entry and posting the rendering names ----------
+
+pub const LABELS: [&str; 9] = [
+    "error occured",
+    "first posting without constraints",
+    "cannot deduce this posting",
+    "absolute zero posting should not have exchange",
+    "exchange with zero amount",
+    "posting amount",
+    "exchange cannot have the same commodity with posting",
+    "not match the computed balance",
+    "computed balance: ",
+];
+
+/// title line -> kind of error (Run/LedgerCase.v title_code; 0 = none of them)
+pub fn title_code(title: &str) -> u32 {
+    const T: [(&str, u32); 11] = [
+        ("failed to evaluate the expression: ", 1),
+        ("failed to meet balance condition: ", 2),
+        ("transaction cannot have multiple postings without constraints", 3),
+        ("transaction cannot have unbalanced postings: ", 4),
+        ("balance assertion off by ", 5),
+        ("posting without commodity should not have exchange", 6),
+        ("cost or lot exchange must not be zero", 7),
+        ("cost or lot exchange must have different commodity from the amount commodity", 8),
+        ("failed to register account: ", 9),
+        ("failed to register commodity: ", 10),
+        ("posting amount must be resolved as a simple value with commodity or zero", 11),
+    ];
+    let t = title.strip_prefix("error: ").unwrap_or(title);
+    T.iter().find(|(p, _)| t.starts_with(p)).map(|x| x.1).unwrap_or(0)
+}
+
+#[derive(Clone, Debug, PartialEq)]
+pub enum GDiag {
+    NotApplicable,
+    Panic(String),
+    Unreadable(String),
+    Wide,
+    Seen(GSeen),
+}
+
+#[derive(Clone, Debug, PartialEq)]
+pub struct Mark {
+    pub label: usize,
+    pub entry: usize,
+    /// posting in whose lines the marker starts (POSTING_HEAD above the first posting)
+    pub posting: usize,
+    /// the marker runs from the first to the last line of the entry
+    pub whole: bool,
+    pub first_line: usize,
+    pub last_line: usize,
+}
+
+pub const POSTING_HEAD: usize = 98;
+
+#[derive(Clone, Debug, PartialEq)]
+pub struct GSeen {
+    pub title: u32,
+    pub first_entry: usize,
+    pub last_entry: usize,
+    pub loc_line: usize,
+    pub loc_col: usize,
+    pub loc_entry: usize,
+    pub loc_posting: usize,
+    pub first_line: usize,
+    pub last_line: usize,
+    pub marks: Vec<Mark>,
+}
+
+/// (entry, posting) whose lines contain line `n`
+fn place_of_line(r: &Rendered, n: usize) -> (usize, usize) {
+    for (k, first) in r.entry_line.iter().enumerate() {
+        let last = r.entry_last_line.get(k).copied().unwrap_or(0);
+        if *first <= n && n <= last {
+            let spans = &r.posting_span[k];
+            let p = match spans.iter().rposition(|sp| sp.line <= n) {
+                Some(i) => i,
+                None => POSTING_HEAD,
+            };
+            return (k, p);
+        }
+    }
+    (NO_POSTING, NO_POSTING)
+}
+
+/// read the rendering of any book-keeping error raised on `r`: title, location, excerpt, markers.
+/// Source rows of an excerpt carry the columns of multi-line markers in front (`/ ` on the
+/// line where one starts, `| ` below it, `|____^ label` on a row of its own where it ends);
+/// a single-line marker is a run of `^`/`-` under the line with its label on that row or below.
+pub fn read_error_diag(rendered: &str, r: &Rendered) -> GDiag {
+    let lines: Vec<&str> = rendered.lines().collect();
+    let src_lines: Vec<&str> = r.text.split('\n').collect();
+    let title = match lines.first() {
+        Some(t) => title_code(t),
+        None => return GDiag::Unreadable("empty".into()),
+    };
+    let loc_idx = match lines.iter().position(|l| l.trim_start().starts_with("--> ")) {
+        Some(i) => i,
+        None => return GDiag::Unreadable("no location line".into()),
+    };
+    let loc = lines[loc_idx].trim_start().trim_start_matches("--> ");
+    let mut it = loc.rsplitn(3, ':');
+    let loc_col: usize = match it.next().and_then(|x| x.trim().parse().ok()) {
+        Some(v) => v,
+        None => return GDiag::Unreadable(format!("location: {}", loc)),
+    };
+    let loc_line: usize = match it.next().and_then(|x| x.parse().ok()) {
+        Some(v) => v,
+        None => return GDiag::Unreadable(format!("location: {}", loc)),
+    };
+    let w = lines[loc_idx].find("-->").unwrap_or(0);
+    let mut first_line = 0;
+    let mut last_line = 0;
+    let mut cur: Option<usize> = None; // last source line seen
+    let mut open: Option<usize> = None; // line where the multi-line marker being drawn starts
+    let mut marks = Vec::new();
+    for l in &lines[loc_idx + 1..] {
+        let b = l.as_bytes();
+        if b.len() < w + 2 || b[w + 1] != b'|' || !l.is_char_boundary(w + 2) {
+            return GDiag::Unreadable(format!("excerpt row: {}", l));
+        }
+        let gutter = l[..w + 1].trim();
+        let lineno = if gutter.is_empty() { None } else { gutter.parse::<usize>().ok() };
+        if !gutter.is_empty() && lineno.is_none() {
+            return GDiag::Unreadable(format!("gutter: {}", l));
+        }
+        let rest = &l[w + 2..];
+        let rest = rest.strip_prefix(' ').unwrap_or(rest);
+        match lineno {
+            Some(n) => {
+                let want = src_lines.get(n.wrapping_sub(1)).copied().unwrap_or("\u{0}");
+                if cols(want) > MAX_LINE_COLS {
+                    return GDiag::Wide;
+                }
+                let want = want.replace('\t', "    ");
+                let mut found = None;
+                for pw in [0usize, 2, 4, 6] {
+                    if rest.len() >= pw
+                        && rest.is_char_boundary(pw)
+                        && rest[..pw].chars().all(|c| c == ' ' || c == '/' || c == '|')
+                        && rest[pw..].trim_end() == want.trim_end()
+                    {
+                        found = Some(pw);
+                        break;
+                    }
+                }
+                let pw = match found {
+                    Some(pw) => pw,
+                    None => return GDiag::Unreadable(format!("line {} is shown as {:?}", n, rest)),
+                };
+                if rest[..pw].contains('/') {
+                    open = Some(n);
+                }
+                if first_line == 0 {
+                    first_line = n;
+                }
+                last_line = n;
+                cur = Some(n);
+            }
+            None => {
+                let n = match cur {
+                    Some(n) => n,
+                    None => continue, // the empty row above the excerpt
+                };
+                for (k, label) in LABELS.iter().enumerate() {
+                    if let Some(at) = rest.find(label) {
+                        // `|____^ label`: the end of a multi-line marker
+                        let multi = rest[..at].contains('_');
+                        let (a, z) = if multi {
+                            match open {
+                                Some(s) => (s, n),
+                                None => return GDiag::Unreadable(format!("marker without a start: {}", l)),
+                            }
+                        } else {
+                            (n, n)
+                        };
+                        let (ea, pa) = place_of_line(r, a);
+                        let (ez, _) = place_of_line(r, z);
+                        let entry = if ea == ez { ea } else { NO_POSTING };
+                        let whole = entry != NO_POSTING && r.entry_line[entry] == a && r.entry_last_line[entry] == z;
+                        marks.push(Mark { label: k, entry, posting: pa, whole, first_line: a, last_line: z });
+                    }
+                }
+            }
+        }
+    }
+    let first_entry = r.entry_line.iter().position(|l| *l == first_line).unwrap_or(NO_POSTING);
+    let last_entry = r.entry_last_line.iter().position(|l| *l == last_line).unwrap_or(NO_POSTING);
+    let (loc_entry, loc_posting) = place_of_line(r, loc_line);
+    GDiag::Seen(GSeen { title, first_entry, last_entry, loc_line, loc_col, loc_entry, loc_posting, first_line, last_line, marks })
+}
+
+pub fn gdiag_term(d: &GDiag) -> String {
+    match d {
+        GDiag::NotApplicable => "GNone".into(),
+        GDiag::Panic(_) => "GPanic".into(),
+        GDiag::Unreadable(_) => "GUnreadable".into(),
+        GDiag::Wide => "GWide".into(),
+        GDiag::Seen(s) => format!(
+            "(GSeen {} {} {} {} {} {})",
+            s.title,
+            s.first_entry,
+            s.last_entry,
+            s.loc_entry,
+            s.loc_posting,
+            crate::coq::list(s.marks.iter().map(|m| format!("({}%N, {}%nat, {}%nat, {}%N)", m.label, m.entry, m.posting, m.whole as u8)))
+        ),
+    }
+}
+
+pub fn gdiag_json(d: &GDiag) -> serde_json::Value {
+    use serde_json::json;
+    match d {
+        GDiag::NotApplicable => json!(null),
+        GDiag::Panic(m) => json!({ "render_panic": m }),
+        GDiag::Unreadable(m) => json!({ "unreadable": m }),
+        GDiag::Wide => json!("excerpt wider than the renderer's terminal: not read"),
+        GDiag::Seen(s) => json!({"title_kind": s.title, "location": format!("{}:{}", s.loc_line, s.loc_col),
+            "location_in_entry": s.loc_entry, "location_in_posting": s.loc_posting,
+            "excerpt_lines": [s.first_line, s.last_line], "excerpt_starts_entry": s.first_entry, "excerpt_ends_entry": s.last_entry,
+            "markers": s.marks.iter().map(|m| json!({"label": LABELS[m.label], "lines": [m.first_line, m.last_line], "entry": m.entry, "posting": m.posting, "whole_entry": m.whole})).collect::<Vec<_>>()}),
+    }
+}
+
 pub fn diag_term(d: &Diag) -> String {
     use crate::ledger::amount_term;
     match d {
